@@ -56,6 +56,22 @@ def core_q(name, defines, L=12, budget=300, tiers=('quick', 'thorough'), unwind=
                  bounds={'L': L, 'VJ_MAXM': 4, 'VJ_SLEN': 8, 'PV_MACLEN': 3, 'unwind': unwind or (L + 3)})
 
 
+BUILDER_UNITS = ['libjwt/jwt-builder.c', 'libjwt/jwt-encode.c', 'libjwt/jwt.c', 'libjwt/jwt-setget.c',
+                 'libjwt/jwt-memory.c', 'libjwt/base64.c']
+BUILDER_FUNCS = ['jwt_builder_new', 'jwt_builder_setkey', 'jwt_builder_setcb', 'jwt_builder_enable_iat',
+                 'jwt_builder_time_offset', 'jwt_builder_header_set', 'jwt_builder_claim_set', 'jwt_builder_generate',
+                 '__setkey_check', 'jwt_head_setup', 'jwt_encode', 'jwt_encode_str', 'write_js', 'jwt_sign', '__check_hmac',
+                 '__check_key_bits', 'sign_sha_hmac', 'jwt_base64uri_encode', 'base64_encode', 'jwt_alg_str',
+                 'jwt_claim_set', 'jwt_header_set', '__setter', 'jwt_set_int', 'jwt_set_str', 'jwt_obj_check', 'jwt_free']
+
+
+def builder_q(name, defines, budget=600, tiers=('quick', 'thorough')):
+    d = ['VF_FREE_NOOP', 'VF_CAP=24', 'VJ_DEPTH=1', 'VJ_MAXM=5', 'VJ_DUMPLEN=3'] + list(defines)
+    return Query(name, 'core_builder.c', BUILDER_UNITS, defines=d, unwind=26, checks='verdict', budget=budget, tiers=tiers,
+                 bounds={'VJ_MAXM': 5, 'VJ_DUMPLEN': 3, 'PV_MACLEN': 3, 'config history': 'enable_iat?, time_offset(nbf)?, '
+                         'time_offset(exp)?, header typ?, header alg?, claim iat?, claim exp?, setkey, setcb', 'clock': '[0,2^61]'})
+
+
 CORE_FUNCS = ['jwt_checker_new', 'jwt_checker_setkey', 'jwt_checker_setcb', 'jwt_checker_verify', '__setkey_check',
               'jwt_new', 'jwt_free', 'jwt_parse', 'jwt_parse_head', 'jwt_parse_payload',
               'jwt_base64uri_decode_to_json', 'jwt_verify_complete', '__verify_config_post', '__verify_claims',
@@ -100,13 +116,15 @@ PROPS = {
 class C02(Spec):
     functions = CORE_FUNCS
     def queries(self, tier, bld):
-        return [core_q('C02.core.L12', ['PROP_C02', 'PROP_C02_SETKEY'], L=12)]
+        return [core_q('C02.core.L12', ['PROP_C02', 'PROP_C02_SETKEY'], L=12),
+                builder_q('C02.builder', ['PROP_C02'])]
 
 
 class C03(Spec):
     functions = CORE_FUNCS
     def queries(self, tier, bld):
-        return [core_q('C03.core.L12', ['PROP_C03'], L=12)]
+        return [core_q('C03.core.L12', ['PROP_C03'], L=12),
+                builder_q('C03.builder', ['PROP_C03'])]
 
 
 class C06(Spec):
@@ -118,7 +136,8 @@ class C06(Spec):
 class C14(Spec):
     functions = CORE_FUNCS
     def queries(self, tier, bld):
-        return [core_q('C14.verify.L12', ['PROP_C14', 'DIRTY_PRESTATE'], L=12)]
+        return [core_q('C14.verify.L12', ['PROP_C14', 'DIRTY_PRESTATE'], L=12),
+                builder_q('C14.builder', ['PROP_C14', 'DIRTY_PRESTATE'])]
 
 
 class C04(Spec):
@@ -148,6 +167,13 @@ class C09(Spec):
                 Query('C09.gate.verify', 'gate.c', GATE_UNITS, defines=['SIDE_VERIFY', 'VF_FREE_NOOP'], unwind=14, bounds=b)]
 
 
+class C10(Spec):
+    functions = BUILDER_FUNCS
+
+    def queries(self, tier, bld):
+        return [builder_q('C10.builder', ['PROP_C10'])]
+
+
 def tworun_q(name, defines, L=12, budget=600, tiers=('quick', 'thorough'), mac=3):
     d = ['L=%d' % L, 'VF_FREE_NOOP', 'VF_CAP=%d' % (L + 8), 'PV_TAPE', 'PV_MACLEN=%d' % mac, 'VJ_DEPTH=1'] + list(defines)
     return Query(name, 'core_tworun.c', CORE_UNITS, defines=d, unwind=L + 3, checks='verdict', budget=budget, tiers=tiers,
@@ -160,7 +186,7 @@ class C13(Spec):
     def queries(self, tier, bld):
         q = tworun_q('C13.checker.L8', ['PROP_C13'], L=8, mac=1)
         q.unwind = 14
-        return [q]
+        return [q, builder_q('C13.builder', ['PROP_C13', 'DIRTY_PRESTATE'])]
 
 
 class C19(Spec):
@@ -192,4 +218,4 @@ class C11(Spec):
         return qs
 
 
-PROPS.update({'C11': C11(), 'C13': C13(), 'C19': C19(), 'C09': C09(), 'C04': C04(), 'C02': C02(), 'C03': C03(), 'C06': C06(), 'C14': C14()})
+PROPS.update({'C10': C10(), 'C11': C11(), 'C13': C13(), 'C19': C19(), 'C09': C09(), 'C04': C04(), 'C02': C02(), 'C03': C03(), 'C06': C06(), 'C14': C14()})
